@@ -525,6 +525,13 @@ class Sectionable(BaseObject):
 
             raise ValueError("Section named '%s' does not exist" % pathlist[0])
 
+        # A path can also end with a step to the parent or to the section itself,
+        # e.g. the relative path from a section to one of its ancestors.
+        if pathlist[0] == ".." and self.parent is not None:
+            return self.parent
+        if pathlist[0] == ".":
+            return self
+
         return self._match_iterable(self.sections, pathlist[0])
 
     def find(self, key=None, type=None, findAll=False, include_subtype=False):
